@@ -214,7 +214,13 @@ class CHECK(Check):
             "TO, InterpolatedThresholder, EG, GS, CorrelationRemover, adversarial classifier and regressor) before fit in every "
             "run; ThresholdOptimizer.predict/_pmf_predict with sensitive_features off by k or None (fitted and unfitted) in "
             "every vector container; MetricFrame sample_params: None, valid, {}, list/tuple/str/number/[] instead of a dict, a key "
-            "that is no metric name, a per-metric list/number/str; about 40% of the cases carry no defect (must be accepted); distinct = distinct case; non-trivial = all")
+            "that is no metric name, a per-metric list/number/str; about 40% of the cases carry no defect (must be accepted); distinct = distinct case; non-trivial = all. "
+            "Fixed, not varied: X has 2 columns and is an ndarray or a DataFrame (never a list of lists); labels are rendered as "
+            "int, float or bool; group values as int or str; the moments are default-constructed and tested through load_data, "
+            "ExponentiatedGradient / GridSearch always wrap DemographicParity(), ThresholdOptimizer uses grid_size=20, "
+            "predict_method='predict_proba'; sample parameters are `sample_weight` only; the adversarial estimators are only "
+            "exercised UNFITTED (torch backend); NaN / inf parameter values (ratio_bound, costs, constraint_weight) are judged by the "
+            "oracle alone (the exact model has no NaN: no model line is sent for them)")
     explanation = ("decision logic proved in Lean over generated tables/conditions; correspondence: outcome class (ok / exception "
                    "kind) of the real call vs the compiled model on the call's descriptor; oracle: independent Python predicate "
                    "of well-formedness on the arguments as rendered; violation = ok on an ill-formed call (or a prediction "
@@ -940,8 +946,7 @@ class CHECK(Check):
         wf, kind, rel = self.spec(case)
         got = o["out"]
         probs = []
-        if mo is not None and mo:
-            m = mo[0]
+        for m in (mo or []):       # every model line of the case (predict: `val.predictm` AND `val.predict`), not only the first
             if m == "bad-op":
                 probs.append(Problem("harness", "driver rejected the descriptor"))
             elif (m == "ok") != wf or (kind is not None and m != kind):
